@@ -11,4 +11,12 @@ SNext == \E t \in {1, 2} : /\ cnt[t] < N
                            /\ sched' = Append(sched, t)
 SSpec == SInit /\ [][SNext]_<<sched, cnt>>
 Emit == IF Len(sched) < 2 * N THEN TRUE ELSE PrintT("@@" \o ToJson(sched)) /\ FALSE
+
+\* Schedules with at most two preemptions, for guard regions too long for all interleavings: thread a runs i line
+\* events, thread b runs j, a runs to its end, b runs to its end - for every i, j and both choices of a.
+Rep(t, n) == [k \in 1..n |-> t]
+TwoPre(a, b, i, j) == Rep(a, i) \o Rep(b, j) \o Rep(a, N - i) \o Rep(b, N - j)
+PInit == \E a \in {1, 2}, i \in 0..N, j \in 0..N : sched = TwoPre(a, 3 - a, i, j) /\ cnt = [t \in {1, 2} |-> N]
+PSpec == PInit /\ [][FALSE]_<<sched, cnt>>
+PEmit == PrintT("@@" \o ToJson(sched))
 =============================================================================
